@@ -493,7 +493,8 @@ class UTPM(Ring, RawAlgorithmsMixIn):
             self.data[0,...] -= rhs
         else:
             self_data, rhs_data = UTPM._broadcast_arrays(self.data, rhs.data)
-            self_data[...] -= rhs_data[...]
+            # as in __iadd__: a complex right hand side may be accumulated into real data
+            numpy.subtract(self_data, rhs_data, out=self_data, casting="unsafe")
         return self
 
     def __imul__(self,rhs):
